@@ -25,9 +25,19 @@ theorem canon16 {s : List Nat} {s0 s1 s2 s3 s4 s5 s6 s7 s8 s9 s10 s11 s12 s13 s1
   refine ⟨hP _ ?_, hP _ ?_, hP _ ?_, hP _ ?_, hP _ ?_, hP _ ?_, hP _ ?_, hP _ ?_, hP _ ?_, hP _ ?_,
     hP _ ?_, hP _ ?_, hP _ ?_, hP _ ?_, hP _ ?_, hP _ ?_⟩ <;> simp
 
-/-- Symbolic execution of a generated operation list against the reference semantics.
-    `hP`: every stack element is a canonical field element. -/
+/-- Symbolic execution of a generated operation list against the reference semantics. -/
 macro "instr_tac" ops:ident : tactic => `(tactic| (
+  intro vm hl
+  obtain ⟨s0, s1, s2, s3, s4, s5, s6, s7, s8, s9, s10, s11, s12, s13, s14, s15, rest, hs⟩ := exists16 hl
+  simp [stackRun, runOps, $ops:ident, Vm.step, Vm.stepCore, Vm.setStack, Vm.dup, Vm.movup, Vm.movdn,
+    insertAt, hs, Spec.sem, Refines, pad16_eq, Spec.failWith, Spec.failAny, Spec.undef, fadd_fneg,
+    Spec.b2n]
+  all_goals (try (split_ifs <;> simp_all))
+  all_goals (try omega)))
+
+/-- Variant for instructions whose refinement needs the stack elements to be canonical field
+    elements (`hP`), e.g. `dup.8 = pad dup9 add` relies on `0 + x = x (mod p)` for `x < p`. -/
+macro "instr_tac_canon" ops:ident : tactic => `(tactic| (
   intro vm hl hP
   obtain ⟨s0, s1, s2, s3, s4, s5, s6, s7, s8, s9, s10, s11, s12, s13, s14, s15, rest, hs⟩ := exists16 hl
   obtain ⟨c0, c1, c2, c3, c4, c5, c6, c7, c8, c9, c10, c11, c12, c13, c14, c15⟩ := canon16 hP hs
